@@ -44,7 +44,9 @@ def iso_links(tier):
                     continue
                 out.append(P("x", "J1", "J2", L=L, D=D, C=C, K=K, status=st, cv=cv))
     curves = [[[0.05, 30.0]], [[0.02, 55.0]], [[0.0, 40.0], [0.1, 10.0]], [[0.02, 38.0], [0.08, 14.0]],
-              [[0.0, 40.0], [0.05, 32.0], [0.1, 12.0]], [[0.0, 60.0], [0.03, 50.0], [0.06, 20.0]]]
+              [[0.0, 40.0], [0.05, 32.0], [0.1, 12.0]], [[0.0, 60.0], [0.03, 50.0], [0.06, 20.0]],
+              # three points whose first one is NOT the shut-off point: the documented fit of H = A - B*Q^C passes through all three
+              [[0.03, 45.0], [0.06, 35.0], [0.09, 15.0]], [[0.01, 58.0], [0.05, 40.0], [0.08, 12.0]]]
     for c in curves:
         for st in ("OPEN", "CLOSED"):
             out.append(HP("x", "J1", "J2", c, status=st))
@@ -168,9 +170,22 @@ def pump_abc(curve):
         B = -(h1 - h0) / (q1 - q0)
         return h0 + B * q0, B, 1.0
     (q0, h0), (q1, h1), (q2, h2) = curve
-    assert q0 == 0.0
-    C = math.log((h0 - h1) / (h0 - h2)) / math.log(q1 / q2)
-    return h0, (h0 - h1) / q1 ** C, C
+    if q0 == 0.0:
+        C = math.log((h0 - h1) / (h0 - h2)) / math.log(q1 / q2)
+        return h0, (h0 - h1) / q1 ** C, C
+    # the curve through three points with q0 > 0: (h0-h1)/(h0-h2) = (q1^C - q0^C)/(q2^C - q0^C), solved for C by bisection
+    f = lambda C: (q1 ** C - q0 ** C) / (q2 ** C - q0 ** C) - (h0 - h1) / (h0 - h2)
+    lo, hi = 0.05, 20.0
+    assert f(lo) * f(hi) < 0
+    for _ in range(200):
+        mid = 0.5 * (lo + hi)
+        if f(lo) * f(mid) <= 0:
+            hi = mid
+        else:
+            lo = mid
+    C = 0.5 * (lo + hi)
+    B = (h0 - h1) / (q1 ** C - q0 ** C)
+    return h0 + B * q0 ** C, B, C
 
 
 def minor(K, D, q):
@@ -221,7 +236,7 @@ def check_links(s, r, viol, counts):
                     bad("pump-reverse:hpump" + (":at-shutoff-head" if abs(-dh - A) <= 1e-4 else ""), "head pump reports reverse flow: " + where); return
                 if qi > 1e-8:
                     gain = A - B * qi ** C
-                    if abs(-dh - gain) > 1e-6 + 1e-6 * A:
+                    if abs(-dh - gain) > (1e-6 + 1e-6 * A if l["curve"][0][0] == 0.0 or len(l["curve"]) < 3 else 1e-4):      # (regression fit: its own tolerance)
                         bad("hpump-law:%dpt" % len(l["curve"]), "open head pump off H=A-B*Q^C (A=%.6g B=%.6g C=%.6g, expected gain %.9g): " % (A, B, C, gain) + where); return
                 else:
                     if not (A - 1e-4 <= -dh <= A + 1e-4):
